@@ -1,5 +1,5 @@
 """Trace oracles.  They look for a concrete failing execution on the implementation; they never establish a property."""
-import itertools
+import itertools, re
 
 def history(lines, ops):
     """lines: canonical 't call op arg' / 't ret op val' lines -> list of (t, op, arg, ret, call_idx, ret_idx or None)"""
@@ -96,4 +96,23 @@ def sleeper_order(raw):
         elif k in ('load', 'xchg', 'cas', 'add', 'inc', 'or', 'and', 'lock', 'trylock', 'store'):
             for L in d:
                 if L != loc: d[L] += 1
+    return None
+
+def waker_order(raw):
+    """Program-order conformance of the WAKING side with the futex handshake models (Futex/*.v: the waker stores the new value of the word, then issues FUTEX_WAKE):
+    when a thread issues FUTEX_WAKE on word L, its most recent write to L must be more recent than its most recent load of L that returned the value sleepers sleep
+    on (the `val` of the FUTEX_WAIT calls on L in this run).  A wake-up issued first and the store afterwards is spent on a sleeper that re-checks the word, finds it
+    unchanged and goes back to sleep.  (A late wake-up - store done, thread delayed before the system call, sleeper already in its next round - is legitimate and
+    passes: the store precedes it.)  Returns a description of the first violation or None."""
+    sleepval = {}
+    for m in re.finditer(r'^\d+ futex_wait (\S+) val=(-?\d+)', raw, flags=re.M): sleepval.setdefault(m.group(1), set()).add(m.group(2))
+    lastw = {}; lastl = {}
+    for n, l in enumerate(raw.splitlines()):
+        p = l.split()
+        if len(p) < 3 or not p[0].isdigit(): continue
+        t, k, loc = p[0], p[1], p[2]
+        if k == 'load' and loc in sleepval and p[-1] in sleepval[loc]: lastl[(t, loc)] = n
+        elif k in ('store', 'xchg', 'dec', 'inc', 'add', 'addret', 'or', 'and') or (k == 'cas' and len(p) > 6 and p[3][4:] == p[-1]): lastw[(t, loc)] = n
+        elif k == 'futex_wake' and loc in sleepval and (t, loc) in lastl and lastw.get((t, loc), -1) < lastl[(t, loc)]:
+            return 'thread %s issues FUTEX_WAKE on %s without having stored the new value of the word since it last read the value sleepers sleep on (%s): the woken thread re-checks the word, finds it unchanged and sleeps again - the wake-up is spent' % (t, loc, ','.join(sorted(sleepval[loc])))
     return None
